@@ -564,6 +564,21 @@ fn gen_case(rng: &mut Rng, s: &mut Sink, dir: &str, recsize: usize, cfg: Cfg, le
             exec(&mut sut, s, &Op::Range { a: vec![], b: vec![0xFF; 8], lim: rng.range(1, 3) as usize });
             exec(&mut sut, s, &Op::Range { a: k.clone(), b: vec![0xFF; 8], lim: 1 });
             exec(&mut sut, s, &Op::TtlQ { k: k.clone() });
+            // the other calls on a key that may linger expired: each has its own expiry check
+            for _ in 0..2 {
+                let op = match rng.below(8) {
+                    0 => Op::Has { k: k.clone() },
+                    1 => Op::Size { k: k.clone() },
+                    2 => Op::IfAbs { k: k.clone(), v: gen_value(rng) },
+                    3 => Op::Inc { k: k.clone(), d: 1, ts: None, ttl: 0 },
+                    4 => Op::Patch { k: k.clone(), p: rng.pick(&PATCHES).as_bytes().to_vec(), ts: None },
+                    5 => Op::Del { k: k.clone(), ts: None },
+                    6 => Op::UTtl { k: k.clone(), ttl: rng.range(1, 3), persist: rng.chance(1, 2) },
+                    _ => Op::Get { k: k.clone(), bytes_api: true },
+                };
+                exec(&mut sut, s, &op);
+            }
+            exec(&mut sut, s, &Op::Get { k: k.clone(), bytes_api: false });
             continue;
         }
         let op = gen_op(rng, &sut, &mut last_explicit);
